@@ -353,11 +353,16 @@ def parse_eval_blocks(out):
 # known findings
 
 def load_findings(pid):
-    path = os.path.join(VERIF, 'known_findings.json')
-    if not os.path.exists(path):
-        return []
-    data = json.load(open(path))
-    return [f for f in data.get('findings', []) if f.get('property') == pid]
+    paths = [os.path.join(VERIF, 'known_findings.json')]
+    extra = os.path.join(VERIF, 'known_findings.d')
+    if os.path.isdir(extra):
+        paths += [os.path.join(extra, n) for n in sorted(os.listdir(extra)) if n.endswith('.json')]
+    out = []
+    for path in paths:
+        if os.path.exists(path):
+            data = json.load(open(path))
+            out += [f for f in data.get('findings', []) if f.get('property') == pid]
+    return out
 
 
 # --------------------------------------------------------------------------
